@@ -38,6 +38,9 @@ pub enum Q {
   Term { field: String, value: String, boost: Option<f32> },
   Prefix { field: String, value: String, cap: Option<usize>, boost: Option<f32> },
   Wildcard { field: String, value: String, cap: Option<usize>, boost: Option<f32> },
+  /// regular expression over the field's terms (anchored); `re` is the generated syntax tree,
+  /// `value` its rendering
+  Regex { field: String, value: String, re: Re, cap: Option<usize>, boost: Option<f32> },
   Phrase { field: Option<String>, terms: Vec<String>, slop: Option<usize> },
   QueryString { terms: Vec<QsTerm>, nots: Vec<QsTerm>, phrases: Vec<(Option<String>, Vec<String>)>, fields: Option<Vec<String>>, boost: Option<f32> },
   MultiMatch { words: Vec<String>, nots: Vec<String>, fields: Vec<(String, Option<f32>)>, mtype: &'static str, and: Option<bool>, msm: Option<usize>, tie: Option<f32>, boost: Option<f32> },
@@ -53,6 +56,118 @@ pub enum Q {
 // ------------------------------------------------------------------------------------------------
 // generation
 // ------------------------------------------------------------------------------------------------
+
+/// Regular-expression syntax trees over lowercase ASCII letters (no escaping needed).
+#[derive(Clone, Debug)]
+pub enum Re {
+  Lit(char),
+  Any,
+  Cls(Vec<char>),
+  Cat(Vec<Re>),
+  Alt(Vec<Re>),
+  Star(Box<Re>),
+  Plus(Box<Re>),
+  Opt(Box<Re>),
+}
+
+impl Re {
+  pub fn word(w: &str) -> Re {
+    Re::Cat(w.chars().map(Re::Lit).collect())
+  }
+  /// rendering; `top` = no parentheses needed around an alternation
+  pub fn render(&self, top: bool) -> String {
+    match self {
+      Re::Lit(c) => c.to_string(),
+      Re::Any => ".".into(),
+      Re::Cls(cs) => format!("[{}]", cs.iter().collect::<String>()),
+      Re::Cat(xs) => xs.iter().map(|x| x.render(false)).collect(),
+      Re::Alt(xs) => {
+        let body = xs.iter().map(|x| x.render(true)).collect::<Vec<_>>().join("|");
+        if top { body } else { format!("({body})") }
+      }
+      Re::Star(x) => format!("{}*", x.atom()),
+      Re::Plus(x) => format!("{}+", x.atom()),
+      Re::Opt(x) => format!("{}?", x.atom()),
+    }
+  }
+  fn atom(&self) -> String {
+    match self {
+      Re::Lit(_) | Re::Any | Re::Cls(_) => self.render(false),
+      Re::Alt(_) => self.render(false),
+      _ => format!("({})", self.render(true)),
+    }
+  }
+  pub fn to_json(&self) -> Value {
+    match self {
+      Re::Lit(c) => json!({"k": "lit", "c": *c as u32}),
+      Re::Any => json!({"k": "any"}),
+      Re::Cls(cs) => json!({"k": "cls", "cs": cs.iter().map(|c| *c as u32).collect::<Vec<_>>()}),
+      Re::Cat(xs) => json!({"k": "cat", "xs": xs.iter().map(|x| x.to_json()).collect::<Vec<_>>()}),
+      Re::Alt(xs) => json!({"k": "alt", "xs": xs.iter().map(|x| x.to_json()).collect::<Vec<_>>()}),
+      Re::Star(x) => json!({"k": "star", "x": x.to_json()}),
+      Re::Plus(x) => json!({"k": "plus", "x": x.to_json()}),
+      Re::Opt(x) => json!({"k": "opt", "x": x.to_json()}),
+    }
+  }
+}
+
+/// A pattern built around one or two corpus words: wildcards, classes, optional and repeated
+/// characters at the start, in the middle and at the end, alternations with and without group.
+pub fn gen_re(r: &mut StdRng) -> Re {
+  let w: Vec<char> = pick(r, &WORDS).chars().collect();
+  let w2: String = pick(r, &WORDS).to_string();
+  let lits = |cs: &[char]| -> Vec<Re> { cs.iter().map(|c| Re::Lit(*c)).collect() };
+  let i = r.gen_range(0..w.len());
+  match r.gen_range(0..10) {
+    0 => Re::Alt(vec![Re::word(&w.iter().collect::<String>()), Re::word(&w2)]),
+    1 => {
+      // common first letter, grouped alternation of the rests (the README's r(ust|uby))
+      let mut xs = lits(&w[..1]);
+      xs.push(Re::Alt(vec![Re::word(&w[1..].iter().collect::<String>()), Re::word(w2.get(1..).unwrap_or(""))]));
+      Re::Cat(xs)
+    }
+    2 => {
+      let mut xs = lits(&w);
+      xs[i] = Re::Any;
+      Re::Cat(xs)
+    }
+    3 => {
+      let mut xs = lits(&w[..i]);
+      xs.push(Re::Star(Box::new(Re::Any)));
+      Re::Cat(xs)
+    }
+    4 => {
+      let mut xs = lits(&w);
+      xs[i] = Re::Opt(Box::new(Re::Lit(w[i])));
+      Re::Cat(xs)
+    }
+    5 => {
+      let mut xs = lits(&w);
+      xs[i] = Re::Star(Box::new(Re::Lit(w[i])));
+      Re::Cat(xs)
+    }
+    6 => {
+      let mut xs = lits(&w);
+      xs[i] = Re::Plus(Box::new(Re::Lit(w[i])));
+      Re::Cat(xs)
+    }
+    7 => {
+      let mut xs = lits(&w);
+      xs[i] = Re::Cls(vec![w[i], *pick(r, &['a', 'j', 'r', 's'])]);
+      Re::Cat(xs)
+    }
+    8 => {
+      let mut xs = vec![Re::Star(Box::new(Re::Any))];
+      xs.extend(lits(&w[i..]));
+      Re::Cat(xs)
+    }
+    _ => {
+      let mut xs = lits(&w[..i]);
+      xs.push(Re::Opt(Box::new(Re::word(&w[i..].iter().collect::<String>()))));
+      Re::Cat(xs)
+    }
+  }
+}
 
 pub struct GenCfg {
   pub depth: usize,
@@ -227,7 +342,12 @@ pub fn gen_query(r: &mut StdRng, depth: usize, cfg: &GenCfg) -> Q {
           }
           _ => format!("{}*{}", cs[0], cs[cs.len() - 1]),
         };
-        Q::Wildcard { field: f, value: pat, cap: None, boost: boost(r, cfg) }
+        if chance(r, 1, 3) {
+          let re = gen_re(r);
+          Q::Regex { field: f, value: re.render(true), re, cap: Some(100), boost: boost(r, cfg) }
+        } else {
+          Q::Wildcard { field: f, value: pat, cap: None, boost: boost(r, cfg) }
+        }
       }
       6 | 7 => {
         let n = r.gen_range(1..=3);
@@ -398,6 +518,15 @@ pub fn render_query(q: &Q) -> Value {
     }
     Q::Prefix { field, value, cap, boost } => {
       m.insert("type".into(), json!("prefix"));
+      m.insert("field".into(), json!(field));
+      m.insert("value".into(), json!(value));
+      if let Some(c) = cap {
+        m.insert("max_expansions".into(), json!(c));
+      }
+      put_boost(&mut m, boost);
+    }
+    Q::Regex { field, value, cap, boost, .. } => {
+      m.insert("type".into(), json!("regex"));
       m.insert("field".into(), json!(field));
       m.insert("value".into(), json!(value));
       if let Some(c) = cap {
@@ -653,6 +782,12 @@ pub fn abstract_query(schema: &Schema, q: &Q, default_fields: &[String], scored:
       let p = pattern_token(schema, field, value);
       dict.add(&p);
       json!({"k": "prefix", "f": field, "kind": field_kind(schema, field), "p": p, "cap": cap.unwrap_or(50), "sc": scored, "w": w(b * nb(boost))})
+    }
+    Q::Regex { field, value, re, cap, boost } => {
+      // the search analyzer may reduce the pattern to its single token (then it is a literal)
+      let eff = pattern_token(schema, field, value);
+      let ast = if eff == *value { re.to_json() } else { Re::word(&eff).to_json() };
+      json!({"k": "regex", "f": field, "kind": field_kind(schema, field), "ast": ast, "cap": cap.unwrap_or(100), "sc": scored, "w": w(b * nb(boost))})
     }
     Q::Wildcard { field, value, cap, boost } => {
       let p = pattern_token(schema, field, value);
